@@ -505,6 +505,26 @@ pub fn check_edges3(w: &[u64], t: &mut Tally) -> Result<(), Fail> {
                 let mut acc = ga;
                 acc *= gb;
                 logic::entries_within::<4>(cx!(t, $an), "affine3/compose", "a *= b", &O3::raw(&$M4::from(acc).into()), &prod, &tol, &ctx)?;
+                // the affine-times-matrix operators with a right / left operand that is not affine (a projective bottom row taken
+                // from the probes): still the composition of the converted affine map with that matrix
+                {
+                    let bottom = [p[0] as f64, p[1] as f64, v[0] as f64, 1.0 + v[1] as f64];
+                    let mut cols = $M4::from(gb).to_cols_array();
+                    let mut rbp = rb.m;
+                    for j in 0..4 {
+                        cols[4 * j + 3] = bottom[j] as _;
+                        rbp.0[j][3] = Q::of(cols[4 * j + 3] as f64);
+                    }
+                    let mp = $M4::from_cols_array(&cols);
+                    let (pr, prabs) = ra.m.mul(&rbp);
+                    let tolp = |j: usize, i: usize| KX * $u * prabs.0[j][i].f();
+                    let am: $M4 = ga * mp;
+                    logic::entries_within::<4>(cx!(t, $an), "affine3/compose", "a * m (m with a projective bottom row)", &O3::raw(&am.into()), &pr, &tolp, &ctx)?;
+                    let (pl, plabs) = rbp.mul(&ra.m);
+                    let toll = |j: usize, i: usize| KX * $u * plabs.0[j][i].f();
+                    let ma: $M4 = mp * ga;
+                    logic::entries_within::<4>(cx!(t, $an), "affine3/compose", "m * a (m with a projective bottom row)", &O3::raw(&ma.into()), &pl, &toll, &ctx)?;
+                }
                 let al = [ga, gb];
                 let ml = [$M4::from(ga), $M4::from(gb)];
                 logic::entries_within::<4>(cx!(t, $an), "affine3/compose", "Mat4::from([a, b].iter().product())", &O3::raw(&$M4::from(al.iter().product::<$A>()).into()), &prod, &tol, &ctx)?;
@@ -951,6 +971,56 @@ pub fn check_identity(w: &[u64], t: &mut Tally) -> Result<(), Fail> {
         empty!(12, DAffine3, []);
         return Ok(());
     }
+    if w[0] == 3 {
+        // the 24 rotations of the cube (signed permutation matrices of determinant +1) have exact arithmetic throughout:
+        // in every representation the inverse is the transpose, bit for bit, and converting commutes with inverting
+        let perms: [[usize; 3]; 6] = [[0, 1, 2], [0, 2, 1], [1, 0, 2], [1, 2, 0], [2, 0, 1], [2, 1, 0]];
+        let mut found = 0usize;
+        'outer: for pm in perms.iter() {
+            for sg in 0..8u32 {
+                let sign = |k: usize| if sg >> k & 1 == 1 { -1.0f32 } else { 1.0 };
+                let parity = { let mut inv = 0; for a in 0..3 { for b in a + 1..3 { if pm[a] > pm[b] { inv += 1; } } } inv % 2 };
+                let negs = (sg & 1) + (sg >> 1 & 1) + (sg >> 2 & 1);
+                if (parity + negs as usize) % 2 != 0 {
+                    continue; // determinant -1
+                }
+                if found == i {
+                    let mut c = [0.0f32; 9];
+                    for col in 0..3 {
+                        c[col * 3 + pm[col]] = sign(col);
+                    }
+                    let m3 = Mat3::from_cols_array(&c);
+                    let want = m3.transpose().to_cols_array();
+                    let name = format!("cube rotation (cols) {:?}", c);
+                    let chk = |what: &str, got: [f32; 9]| -> Result<(), Fail> {
+                        if got.iter().zip(want.iter()).any(|(a, b)| a != b) {
+                            return Err(Fail::new(format!("C05/{}/identities/cube-rotations", VARIANT), what, format!("{what} of {name} is {:?}, not its transpose {:?}", got, want)));
+                        }
+                        Ok(())
+                    };
+                    let b9 = |a: [f32; 16]| [a[0], a[1], a[2], a[4], a[5], a[6], a[8], a[9], a[10]];
+                    let d9 = |a: [f64; 9]| a.map(|x| x as f32);
+                    chk("Mat3::inverse", m3.inverse().to_cols_array())?;
+                    chk("Mat3A::inverse", Mat3A::from(m3).inverse().to_cols_array())?;
+                    chk("Mat4::inverse", b9(Mat4::from_mat3(m3).inverse().to_cols_array()))?;
+                    chk("Affine3A::inverse", Mat3::from(Affine3A::from_mat3(m3).inverse().matrix3).to_cols_array())?;
+                    chk("DMat3::inverse", d9(m3.as_dmat3().inverse().to_cols_array()))?;
+                    chk("DAffine3::inverse", d9(DAffine3::from_mat3(m3.as_dmat3()).inverse().matrix3.to_cols_array()))?;
+                    chk("Mat3::from_quat(Quat::from_mat3(m).inverse())", {
+                        let q = Quat::from_mat3(&m3).inverse();
+                        let r = Mat3::from_quat(q).to_cols_array();
+                        // quaternion components of a cube rotation are 0, +-1/2, +-1/sqrt 2, +-1: allow the rounding of 1/sqrt 2
+                        let mut out = [0.0f32; 9];
+                        for k in 0..9 { out[k] = if (r[k] - want[k]).abs() <= 4.0 * f32::EPSILON { want[k] } else { r[k] }; }
+                        out
+                    })?;
+                    break 'outer;
+                }
+                found += 1;
+            }
+        }
+        return Ok(());
+    }
     let (name, got, want, from) = if w[0] == 0 {
         if i >= EDGES3.len() {
             return Ok(());
@@ -1013,6 +1083,12 @@ pub fn subs<'a>(_args: &Args) -> Vec<SubCheck<'a>> {
             for i in 0..13u64 {
                 n += 1;
                 if !env.direct(&[2, i], &check_identity) {
+                    return;
+                }
+            }
+            for i in 0..24u64 {
+                n += 1;
+                if !env.direct(&[3, i], &check_identity) {
                     return;
                 }
             }
